@@ -1,4 +1,4 @@
-import Octo.Model.SqlParse
+import Octo.Model.SqlOk
 import Octo.Drv.Codec
 /-!
   C30 driver: wire tokens ↔ `Tok`, the canonical dump of the tree, `model` and `judge`.
@@ -153,7 +153,10 @@ def model (toks : List String) : String :=
     match parseStmt ts with
     | none => "E"
     | some t =>
-      "F " ++ dumpS t ++ " P " ++ String.intercalate " " ((printS t).map encodeTok) ++ " R " ++ verdictOf t
+      -- `O1`: the tree satisfies the parser-image predicate `okS` (the hypothesis of `C30_partial`); the Go side always
+      -- prints O1 for an in-fragment tree without raw-name hazard, so a parser-built tree outside `okS` is a mismatch
+      "F " ++ dumpS t ++ " P " ++ String.intercalate " " ((printS t).map encodeTok) ++ " R " ++ verdictOf t ++
+        (if okS t && t.isStmt then " O1" else " O0")
 
 /-- does the statement call a function / use an interval unit / a convert type whose name `Format` prints unquoted
     although it does not lex back to itself?  (token-level test: the name token is followed by `(` / follows `::`) -/
@@ -176,7 +179,7 @@ def judge (toks : List String) (out : List String) : String :=
   | ["E"] => "ok"
   | "N" :: _ => "ok"      -- not a select statement: outside the property as checked here
   | _ =>
-    match out.getLast? with
+    match (out.filter (fun w => w != "O1" && w != "O0")).getLast? with
     | some "same" => "ok"
     | some v =>
       if v == "differ" || v == "reparse-err" || v == "panic" then
